@@ -5,10 +5,15 @@
 use super::*;
 use alice_protocol_reader::prelude::{RdhCru, SerdeRdh, RDH};
 
-static mut LAYER: u8 = 0xFF;
-static mut STAVE: u8 = 0xFF;
-static mut N_LS: usize = 0;
-static mut N_OTHER: usize = 0;
+struct LsState {
+    magic: u64,
+    layer: u8,
+    stave: u8,
+    n_ls: usize,
+    n_other: usize,
+}
+/// one static with unique initial bytes: see the note at `VState` in vsup.rs
+static mut LS: LsState = LsState { magic: 0x5645_5249_465F_4C53, layer: 0xFF, stave: 0xFF, n_ls: 0, n_other: 0 };
 
 /// observing stub for flume::Sender::<StatType>::send (Kani mode only)
 fn obs_send<T>(_s: &flume::Sender<T>, m: T) -> Result<(), flume::SendError<T>> {
@@ -17,11 +22,11 @@ fn obs_send<T>(_s: &flume::Sender<T>, m: T) -> Result<(), flume::SendError<T>> {
         unsafe {
             match st {
                 StatType::LayerStaveSeen { layer, stave } => {
-                    LAYER = *layer;
-                    STAVE = *stave;
-                    N_LS += 1;
+                    LS.layer = *layer;
+                    LS.stave = *stave;
+                    LS.n_ls += 1;
                 }
-                _ => N_OTHER += 1,
+                _ => LS.n_other += 1,
             }
         }
     }
@@ -46,7 +51,7 @@ fn c14_layer_stave() {
     let sys = b[5];
     let recognised = matches!(sys, 3..=8 | 10 | 15 | 17..=19 | 32..=39 | 255);
     #[cfg(not(feature = "verif_native"))]
-    let (n_ls, n_other, layer, stave) = unsafe { (N_LS, N_OTHER, LAYER, STAVE) };
+    let (n_ls, n_other, layer, stave) = unsafe { (LS.n_ls, LS.n_other, LS.layer, LS.stave) };
     #[cfg(feature = "verif_native")]
     let (n_ls, n_other, layer, stave) = {
         let mut t = (0usize, 0usize, 0xFFu8, 0xFFu8);
